@@ -191,6 +191,7 @@ pub struct SynField { pub ty: SynType }
 }
 
 pub mod syn {
+    pub use super::Error;
     pub use super::SynField as Field;
     pub use super::SynType as Type;
     pub use super::syn_parse::parse2;
